@@ -239,3 +239,53 @@ def param_root(fn, i):
 
 def subtree_calls(fn, nid, q):
     return [fn.nodes[x] for x in fn.subtree(nid) if fn.nodes[x].get('k') == 'call' and fn.nodes[x].get('q') == q]
+
+
+def origin(fn, nid, hops=6):
+    """Strip wrappers and follow single-assignment locals to their initialiser: the node that produced the value.
+    `auto& db = member_database(t); db.remove(..)` -> the member_database call.  Returns a node (or None)."""
+    n = fn.sn(nid) if nid is not None else None
+    while n is not None and hops > 0 and n.get('k') == 'var' and n.get('vk') == 'local':
+        hops -= 1
+        init = None
+        d = n['d']
+        for m in fn.all_nodes():
+            if m.get('k') == 'decl':
+                for v in m['vars']:
+                    if v['d'] == d and isinstance(v.get('init'), int):
+                        init = v['init']
+            elif m.get('k') == 'assign':
+                l = fn.sn(m['lhs'])
+                if l is not None and l.get('k') == 'var' and l.get('d') == d:
+                    return n
+            elif m.get('k') == 'unop' and m.get('op') in ('++', '--'):
+                l = fn.sn(m['sub'])
+                if l is not None and l.get('k') == 'var' and l.get('d') == d:
+                    return n
+        if init is None:
+            return n
+        nx = fn.sn(init)
+        # a reference/value bound to a freshly built object keeps the variable as identity only for constructs of
+        # class type with arguments (the caller may want the construct itself): return the initialiser in all cases
+        if nx is None:
+            return n
+        n = nx
+    return n
+
+
+def call_edge_filter(fn, is_atom, value):
+    """edge_ok for path_search: at every branch whose condition is `atom` or `!atom` (is_atom(node) true) follow only the
+    edge consistent with atom == value."""
+    def edge_ok(b, idx, s):
+        blk = fn.blocks[b]
+        if 'cond' not in blk or len(blk['succs']) != 2:
+            return True
+        c = fn.sn(blk['cond'])
+        neg = False
+        while c is not None and c.get('k') == 'unop' and c.get('op') == '!':
+            neg = not neg
+            c = fn.sn(c['sub'])
+        if c is None or not is_atom(c):
+            return True
+        return idx == (0 if (value != neg) else 1)
+    return edge_ok
